@@ -141,6 +141,22 @@ def merge_case(case, ctx):
             return
         tsize += osize
     got, gp = H.summary(target)
+    # operands other than the target must come out of the merge unchanged (they may be merged
+    # again elsewhere: "merged in any arrival order" quantifies over histories that reuse them)
+    for p in range(3):
+        if arrays[p] is target:
+            continue
+        alone = new_array(ns, rooted)
+        for i in parts[p]:
+            alone.add_tree(make_tree(i, rooted, ns))
+        wa, _ = H.summary(alone, with_queries=False)
+        ga, _ = H.summary(arrays[p], with_queries=False)
+        d = H.diff_summaries(wa, ga)
+        if d:
+            ctx.violation("merge|%s|operand-modified|%s" % (mop, "+".join(d[:3])),
+                          "after %s-merging, a source sub-collection no longer summarises its own trees: %s differs (%r vs %r)" % (
+                              mop, d[0], ga.get(d[0]), wa.get(d[0])), case)
+            return
     for name, e in gp:
         ctx.violation("merge|%s|query-fails|%s" % (mop, name), "after %s-merging, %s fails: %r" % (mop, name, e), case)
     if gp:
